@@ -146,8 +146,12 @@ func NewGoStore(r *rand.Rand, s *Schema, m GoMode, t *DNode) *GoStore {
 		single := len(n.Keys) == 1
 		if m.Shape == "map" {
 			g.Repr[n] = ReprSliceMap
+			// keyed maps for the key types the library itself builds typed maps for (nodeutil create / DoNewObject)
 			if single && r.Intn(2) == 0 {
-				g.Repr[n] = ReprMap
+				switch n.Child(n.Keys[0]).Type.Base {
+				case "string", "int32", "int64":
+					g.Repr[n] = ReprMap
+				}
 			}
 			return
 		}
@@ -162,6 +166,9 @@ func NewGoStore(r *rand.Rand, s *Schema, m GoMode, t *DNode) *GoStore {
 			}
 		}
 		g.Repr[n] = opts[r.Intn(len(opts))]
+		if m.API == "reflect" && r.Intn(3) == 0 {
+			g.Repr[n] = ReprSliceVal
+		}
 	})
 	if m.Shape == "struct" {
 		rt := g.structType(nil, s.Top)
